@@ -463,6 +463,60 @@ def bodies_in_caller_terms(ts, t, lang=None, depth=2):
     return out
 
 
+# ---- bulk array transfers: the cursor moves by what was transferred, after it was transferred ---------------------------------
+def rule_bulk_advance(ctx, cd, which: str, rule_id: str):
+    """C array emitters move whole runs of bits with nunavutCopyBits / nunavutGetBits and then advance the cursor themselves.
+    An advance with no transfer in front of it (the call swallowed by a `//` comment that lost its line break to whitespace
+    control, say) leaves the run unwritten / unread while everything behind it is placed as if it had been."""
+    mnames = ("_serialize_fixed_length_array", "_serialize_variable_length_array") if which == "ser" else \
+        ("_deserialize_fixed_length_array", "_deserialize_variable_length_array")
+    call = "nunavutCopyBits" if which == "ser" else "nunavutGetBits"
+    t = cd.tmpl("c", which)
+    n = 0
+    for mname in mnames:
+        for p in cd.paths("c", which, mname):
+            text = cd.text("c", p)
+            ev = events(text, "c", macro_placeholders(p))
+            label = " & ".join(("" if pol else "not ") + c for c, pol in p.conds)[-90:] or "always"
+            last = 0
+            for pos, kind, payload in ev:
+                if kind != "advance":
+                    continue
+                n += 1
+                seg = text[last:pos]
+                last = pos + 1
+                m = None
+                for m in re.finditer(rf"\b{call} ?\(", seg):
+                    pass
+                if m is None:
+                    ctx.ob(rule_id, t.rel, f"c: {mname} [{label}]: the advance by `{unplaceholder(p, payload)}` follows a {call} of the run", False,
+                           f"no {call} call between the previous advance and this one in the emitted code: the run is skipped, not transferred "
+                           "(a call that shares its line with a // comment is not emitted code)")
+                    continue
+                # the call's arguments
+                depth, i, args, cur = 0, m.end(), [], ""
+                while i < len(seg):
+                    ch = seg[i]
+                    if ch in "([":
+                        depth += 1
+                    elif ch in ")]":
+                        if depth == 0:
+                            break
+                        depth -= 1
+                    if ch == "," and depth == 0:
+                        args.append(cur.strip())
+                        cur = ""
+                    else:
+                        cur += ch
+                    i += 1
+                args.append(cur.strip())
+                ln = args[2] if which == "ser" and len(args) == 5 else (args[4] if which == "des" and len(args) == 5 else None)
+                ok = ln is not None and unplaceholder(p, ln) == unplaceholder(p, payload)
+                ctx.ob(rule_id, t.rel, f"c: {mname} [{label}]: the advance by `{unplaceholder(p, payload)}` follows a {call} of the run", ok,
+                       "" if ok else f"{call} moves `{unplaceholder(p, ln or '?')}` bits but the cursor advances by `{unplaceholder(p, payload)}`")
+    ctx.floor(rule_id + ":bulk", n, 8 if which == "ser" else 5)
+
+
 # ---- the generated routine's body is the codec macro's output for every type ------------------------------------------------
 def rule_entry(ctx, cd, which: str, rule_id: str):
     """The body of <T>_serialize_/_deserialize_ (C), serialize()/deserialize() (C++) and _serialize_/_deserialize_ (Python) is
